@@ -399,7 +399,8 @@ where
             return Err(IVPStatus::Done);
         }
 
-        if self.time.real() + self.dt.real() >= self.end.real() {
+        let last_step = self.time.real() + self.dt.real() >= self.end.real();
+        if last_step {
             self.dt = self.end - self.time;
         }
 
@@ -426,7 +427,12 @@ where
         let error = self.scratch_pad.norm() / self.dt.real();
 
         if error <= self.tolerance.real() {
-            self.time += self.dt;
+            if last_step {
+                // time + (end - time) need not round to end
+                self.time = self.end;
+            } else {
+                self.time += self.dt;
+            }
 
             for (ind, &avg_coeff) in self.avg_coefficients.iter().enumerate() {
                 self.state += self.half_steps.column(ind) * avg_coeff;
